@@ -44,6 +44,23 @@ FAMILY = [
         ('wrap a statement in a block', '  p3 : process (all)\n  begin\n    z <= c;\n  end process;\n', '  wrap : block\n  begin\n    p3 : process (all)\n    begin\n      z <= c;\n    end process;\n  end block;\n'),
         ('add an unused declaration', '  constant zero : natural := 0;\n', '  constant zero : natural := 0;\n  type spare_§ is (one, two);\n'),
     ]),
+    (DS.D_USE, 'use_in_decl.vhd', [
+        ('use p.all -> item-wise use clause inside the declarative part', 'use work.enum_pkg.all;\n\npackage user_pkg is\n  constant c0 : boolean := 1 = 2;\n',
+         'package user_pkg is\n  constant c0 : boolean := 1 = 2;\n  use work.enum_pkg.color_t;\n'),
+        ('add an unused declaration', '  constant c1 : boolean := red = green;\n', '  constant c1 : boolean := red = green;\n  constant spare_§ : boolean := false;\n'),
+    ]),
+    (DS.D_OVER, 'overload.vhd', [
+        ('reorder independent declarations', "  function f (a : bit) return integer is\n  begin\n    if a = '1' then\n      return f('0');\n    end if;\n    return 0;\n  end function;\n  function f (a : integer) return integer is\n  begin\n    return a;\n  end function;\n  constant c : integer := f(1);\n",
+         "  function f (a : integer) return integer is\n  begin\n    return a;\n  end function;\n  constant c : integer := f(1);\n  function f (a : bit) return integer is\n  begin\n    if a = '1' then\n      return f('0');\n    end if;\n    return 0;\n  end function;\n"),
+        ('positional -> named association (function call)', "signal s : integer := f('1') + c;", "signal s : integer := f(a => '1') + c;"),
+        ('add an unused declaration', 'begin\nend architecture;', '  signal spare_§ : bit;\nbegin\nend architecture;'),
+    ]),
+    (DS.D_NEST, 'nested.vhd', [
+        ('wrap a statement in a block', "  main : process (c)\n    type mode_t is (idle, busy);\n    variable m : mode_t;\n  begin\n    if c = green and m = idle then\n      y <= init.flag;\n    else\n      y <= zero.flag;\n    end if;\n  end process;\n",
+         "  wrap : block\n  begin\n    main : process (c)\n      type mode_t is (idle, busy);\n      variable m : mode_t;\n    begin\n      if c = green and m = idle then\n        y <= init.flag;\n      else\n        y <= zero.flag;\n      end if;\n    end process;\n  end block;\n"),
+        ('reorder independent declarations', "  signal c : color_t;\n  signal y : bit;\n", "  signal y : bit;\n  signal c : color_t;\n"),
+        ('add an unused declaration', "  signal y : bit;\n", "  signal y : bit;\n  type spare_§ is (only);\n"),
+    ]),
     (DS.D_ZOO, 'zoo.vhd', [
         ('positional -> named association (function call through an alias)', 'flag <= choose(mat, copy - 1, 0) after 1 ns;', 'flag <= choose(m => mat, r => copy - 1, c => 0) after 1 ns;'),
         ('positional -> named association (procedure call)', 'bump(count, ok);', 'bump(n => count, done => ok);'),
